@@ -114,14 +114,26 @@ from mutwo import core_parameters as cp  # noqa: E402
 from mutwo import core_converters as cc  # noqa: E402
 
 
-class Voice(ce.Consecution, class_specific_side_attribute_tuple=("instruments", "bars")):
+class RestCounter:
+    """a callable object with state (a rest maker that counts what it made)"""
+
+    def __init__(self):
+        self.made = []
+
+    def __call__(self, duration):
+        self.made.append(duration)
+        return ce.Chronon(duration)
+
+
+class Voice(ce.Consecution, class_specific_side_attribute_tuple=("instruments", "bars", "rest_maker")):
     """a user subclass with mutable side attributes (the documented way to attach extras to a container): a list, and a
     tuple that holds mutable objects (a bar length as a Duration object, a list)"""
 
-    def __init__(self, *args, instruments=None, bars=None, **kwargs):
+    def __init__(self, *args, instruments=None, bars=None, rest_maker=None, **kwargs):
         super().__init__(*args, **kwargs)
         self.instruments = instruments if instruments is not None else []
         self.bars = bars if bars is not None else (cp.DirectDuration(4), [3, 4])
+        self.rest_maker = rest_maker if rest_maker is not None else RestCounter()
 
 
 class Staff(ce.Concurrence, class_specific_side_attribute_tuple=("instruments", "bars")):
@@ -168,8 +180,11 @@ def gbuild(x, ev, du, te):
         else:
             o = (ce.Consecution if x[0] == "s" else ce.Concurrence)(kids, tag=f"t{i}")
     if t not in te:
-        te[t] = [lambda: cp.DirectTempo(60 + t), lambda: cp.FlexTempo([[0, 60 + t], [2, 30], [3, 90, 1]]),
-                 lambda: cp.FlexTempo([[0, 60], [1, 60]])][t % 3]()
+        if t % 7 == 3:
+            te[t] = cp.DirectTempo(60)          # the neutral tempo, set explicitly (the commonest event there is)
+        else:
+            te[t] = [lambda: cp.DirectTempo(60 + t), lambda: cp.FlexTempo([[0, 60 + t], [2, 30], [3, 90, 1]]),
+                     lambda: cp.FlexTempo([[0, 60], [1, 60]])][t % 3]()
     o.tempo = te[t]
     ev[i] = o
     return o
@@ -202,6 +217,10 @@ def reach(e, acc=None):
                 acc[id(v)] = v
         for v in e.__dict__.get("bars", ()):
             acc[id(v)] = v                   # the mutable objects inside a tuple-valued side attribute
+        rm = e.__dict__.get("rest_maker")
+        if rm is not None:
+            acc[id(rm)] = rm                 # a callable object with state
+            acc[id(rm.made)] = rm.made
         if not (isinstance(e, ce.Envelope) and False):
             if id(t) not in acc:
                 if isinstance(t, ce.Envelope):
@@ -231,7 +250,7 @@ def deep_snap(e):
         return ("L", round(float(e.duration) * TICK), type(e.duration).__name__, e.tag, getattr(e, "pitch", None),
                 tuple(getattr(e, "pitch_list", ())), tsnap(e.tempo))
     bars = getattr(e, "bars", None)
-    bars = None if bars is None else (float(bars[0]), tuple(bars[1]))
+    bars = None if bars is None else (float(bars[0]), tuple(bars[1]), tuple(getattr(getattr(e, "rest_maker", None), "made", ())))
     return (type(e).__name__, e.tag, tuple(getattr(e, "instruments", ())), bars, tsnap(e.tempo), tuple(deep_snap(c) for c in e))
 
 
@@ -247,6 +266,8 @@ def mutate_everything(e, salt):
         return
     if isinstance(getattr(e, "instruments", None), list):
         e.instruments.append(f"mut{salt}")   # in place on the side attribute
+    if getattr(e, "rest_maker", None) is not None:
+        e.rest_maker(salt)                   # using it changes its state
     if getattr(e, "bars", None) is not None:
         e.bars[0].add(salt)                  # in place on the objects a tuple-valued side attribute holds
         e.bars[1].append(salt)
@@ -283,6 +304,12 @@ def unpicklable(case, ev):
             return
 
 
+def conv_tempo(case):
+    """the converter's tempo: a trajectory, or (every third case) the neutral constant / another constant"""
+    k = sum(map(ord, sx.show(case))) % 6
+    return cp.DirectTempo(60) if k == 1 else cp.DirectTempo(90) if k == 4 else cp.FlexTempo([[0, 60], [2, 30, 1], [4, 120]])
+
+
 def run_copyop(case):
     op = case[1]
     src = gbuild(case[2], {}, {}, {})
@@ -293,7 +320,7 @@ def run_copyop(case):
     elif op == "dcopy":
         r = src.destructive_copy()
     elif op == "tconv":
-        r = cc.TempoConverter(cp.FlexTempo([[0, 60], [2, 30, 1], [4, 120]])).convert(src)
+        r = cc.TempoConverter(conv_tempo(case)).convert(src)
     elif op == "metr":
         r = cc.EventToMetrizedEvent().convert(src)
     else:
@@ -319,7 +346,7 @@ def run_copyop(case):
     elif op == "dcopy":
         r2 = src2.destructive_copy()
     elif op == "tconv":
-        r2 = cc.TempoConverter(cp.FlexTempo([[0, 60], [2, 30, 1], [4, 120]])).convert(src2)
+        r2 = cc.TempoConverter(conv_tempo(case)).convert(src2)
     else:
         r2 = cc.EventToMetrizedEvent().convert(src2)
     rs2 = deep_snap(r2)
